@@ -3168,4 +3168,1806 @@ theorem spec_request_all_nodup (S : Schema) (D : Document) (fuel : Nat) (opName 
         exact ((spec_errors_distinct S D fuel).2 o op.sels root [] s' hss).1.2
 
 
+/-! ### fuel: a result that is not stuck does not change when more fuel is given -/
+
+def R.notStuck : R → Prop
+  | .stuck _ => False
+  | _ => True
+
+theorem collectStep_mono (S : Schema) (D : Document) (o : ObjT)
+    (r0 r1 : List Selection → CState → Except Stuck CState)
+    (h : ∀ sels st st', r0 sels st = .ok st' → r1 sels st = .ok st')
+    (st : CState) (sel : Selection) (st' : CState)
+    (h0 : collectStep S D o r0 st sel = .ok st') : collectStep S D o r1 st sel = .ok st' := by
+  unfold collectStep at h0 ⊢
+  by_cases hs : skipped sel.dirs = true
+  · simpa [hs] using h0
+  · simp only [hs, Bool.false_eq_true, if_false] at h0 ⊢
+    cases sel with
+    | field pos alias name wkey argErr dirs sub => exact h0
+    | spread pos name dirs =>
+      simp only at h0 ⊢
+      by_cases hv : name ∈ st.visited
+      · simp only [List.contains_eq_mem, hv, decide_true, if_true] at h0 ⊢; exact h0
+      · simp only [List.contains_eq_mem, hv, decide_false, Bool.false_eq_true, if_false] at h0 ⊢
+        cases hf : D.frag? name with
+        | none => simpa [hf] using h0
+        | some fr =>
+          simp only [hf] at h0 ⊢
+          cases ha : fragmentApplies S o fr.tc with
+          | no => simpa [ha] using h0
+          | panic => simp [ha] at h0
+          | yes => simp only [ha] at h0 ⊢; exact h _ _ _ h0
+    | inline pos tc dirs sub =>
+      cases tc with
+      | none => exact h _ _ _ h0
+      | some tc =>
+        simp only at h0 ⊢
+        cases ha : fragmentApplies S o tc with
+        | no => simpa [ha] using h0
+        | panic => simp [ha] at h0
+        | yes => simp only [ha] at h0 ⊢; exact h _ _ _ h0
+
+theorem collectImpl_mono (S : Schema) (D : Document) (o : ObjT) (fuel : Nat) (sels : List Selection) (st st' : CState)
+    (h : collectImpl S D o fuel sels st = .ok st') : collectImpl S D o (fuel + 1) sels st = .ok st' := by
+  induction fuel generalizing sels st st' with
+  | zero => simp [collectImpl] at h
+  | succ fuel ih =>
+    rw [collectImpl] at h ⊢
+    have fold : ∀ (sels : List Selection) (st st' : CState),
+        sels.foldlM (collectStep S D o (collectImpl S D o fuel)) st = .ok st' →
+        sels.foldlM (collectStep S D o (collectImpl S D o (fuel + 1))) st = .ok st' := by
+      intro sels
+      induction sels with
+      | nil => intro st st' h; exact h
+      | cons sel rest ihl =>
+        intro st st' h
+        simp only [List.foldlM_cons] at h ⊢
+        cases h1 : collectStep S D o (collectImpl S D o fuel) st sel with
+        | error e => simp [h1, bind, Except.bind] at h
+        | ok st1 =>
+          simp only [h1, bind, Except.bind] at h
+          rw [collectStep_mono S D o _ _ (fun sels st st' hh => ih sels st st' hh) st sel st1 h1]
+          simp only [bind, Except.bind]
+          exact ihl st1 st' h
+    exact fold sels st st' h
+
+theorem collectFields_mono (memo : Bool) (S : Schema) (D : Document) (fuel : Nat) (o : ObjT) (sels : List Selection)
+    (c : Cache) (r : Grouped × Cache) (h : collectFields memo S D fuel o sels c = .ok r) :
+    collectFields memo S D (fuel + 1) o sels c = .ok r := by
+  unfold collectFields at h ⊢
+  simp only at h ⊢
+  cases hget : (if memo = true then c.get? (cacheKey o sels) else none) with
+  | some g => simpa [hget] using h
+  | none =>
+    simp only [hget] at h ⊢
+    cases hc : collectImpl S D o fuel sels { visited := [], grouped := [] } with
+    | error e => simp [hc] at h
+    | ok st =>
+      simp only [hc] at h
+      rw [collectImpl_mono S D o fuel sels _ st hc]
+      exact h
+
+theorem catch_notStuck (t : TypeRef) (out : Out) (h : (catchIfNullable t out).r.notStuck) : out.r.notStuck := by
+  cases t with
+  | nonNull t => exact h
+  | named n => simp only [catchIfNullable] at h; cases hr : out.r <;> simp_all [R.notStuck]
+  | list t => simp only [catchIfNullable] at h; cases hr : out.r <;> simp_all [R.notStuck]
+
+theorem execItemsWith_mono (o : ObjT) (path : Path)
+    (f0 f1 : List FieldNode → FieldNode → FieldDef → Path → Cache → Out)
+    (h : ∀ fields fn fd p c, (f0 fields fn fd p c).r.notStuck → f1 fields fn fd p c = f0 fields fn fd p c)
+    (g : Grouped) (acc : List (String × Json)) (errs : List Err) (c : Cache)
+    (hn : (execItemsWith o path f0 g acc errs c).r.notStuck) :
+    execItemsWith o path f1 g acc errs c = execItemsWith o path f0 g acc errs c := by
+  induction g generalizing acc errs c with
+  | nil => rfl
+  | cons p rest ih =>
+    obtain ⟨key, fields⟩ := p
+    simp only [execItemsWith] at hn ⊢
+    cases hh : fields.head? with
+    | none => rfl
+    | some fn =>
+      simp only [hh] at hn ⊢
+      by_cases htn : (fn.name == "__typename") = true
+      · simp only [htn, if_true] at hn ⊢; exact ih _ _ _ hn
+      · simp only [htn, Bool.false_eq_true, if_false] at hn ⊢
+        cases hfd : o.getField fn.name with
+        | none => simp only [hfd] at hn ⊢; exact ih _ _ _ hn
+        | some fd =>
+          simp only [hfd] at hn ⊢
+          have hitem : (f0 fields fn fd (path ++ [.key key]) c).r.notStuck := by
+            apply catch_notStuck fd.type
+            cases hr : (catchIfNullable fd.type (f0 fields fn fd (path ++ [.key key]) c)).r with
+            | ok j => trivial
+            | err e => trivial
+            | stuck st => simp [hr, R.notStuck] at hn
+          rw [h _ _ _ _ _ hitem]
+          cases hr : (catchIfNullable fd.type (f0 fields fn fd (path ++ [.key key]) c)).r with
+          | ok j => simp only [hr] at hn ⊢; exact ih _ _ _ hn
+          | err e => rfl
+          | stuck st => rfl
+
+theorem joinResults_notStuck_mem (rs : List R) (h : (joinResults rs).notStuck) (r : R) (hr : r ∈ rs) : r.notStuck := by
+  cases r with
+  | ok j => trivial
+  | err e => trivial
+  | stuck st =>
+    exfalso
+    have : (rs.findSome? R.stuck?).isSome := by
+      rw [List.findSome?_isSome_iff]
+      exact ⟨_, hr, by simp [R.stuck?]⟩
+    cases hf : rs.findSome? R.stuck? with
+    | none => simp [hf] at this
+    | some s => simp [joinResults, hf, R.notStuck] at h
+
+theorem runItems_mono (inner : TypeRef) (path : Path) (m0 m1 : RVal → Path → Cache → Out)
+    (h : ∀ v p c, (m0 v p c).r.notStuck → m1 v p c = m0 v p c)
+    (items : List RVal) (i : Nat) (c : Cache)
+    (hn : ∀ r ∈ (runItems inner path m0 items i c).1, r.notStuck) :
+    runItems inner path m1 items i c = runItems inner path m0 items i c := by
+  induction items generalizing i c with
+  | nil => rfl
+  | cons v rest ih =>
+    simp only [runItems] at hn ⊢
+    have h0 : (m0 v (path ++ [.idx i]) c).r.notStuck :=
+      catch_notStuck inner _ (hn _ (List.mem_cons_self ..))
+    rw [h _ _ _ h0]
+    rw [ih (i + 1) _ (fun r hr => hn r (List.mem_cons_of_mem _ hr))]
+
+
+
+theorem completeValue_nonNull (memo : Bool) (S : Schema) (D : Document) (fuel : Nat) (inner : TypeRef)
+    (fields : List FieldNode) (f0 : FieldNode) (v : RVal) (path : Path) (c : Cache) :
+    completeValue memo S D (fuel + 1) (.nonNull inner) fields f0 v path c =
+      match (completeValue memo S D fuel inner fields f0 v path c).r with
+      | .ok .null => { completeValue memo S D fuel inner fields f0 v path c with r := .err (errAt f0 path .nullNonNull) }
+      | _ => completeValue memo S D fuel inner fields f0 v path c := by
+  simp only [completeValue]
+  rfl
+
+theorem completeValue_list (memo : Bool) (S : Schema) (D : Document) (fuel : Nat) (inner : TypeRef)
+    (fields : List FieldNode) (f0 : FieldNode) (v : RVal) (path : Path) (c : Cache) :
+    completeValue memo S D (fuel + 1) (.list inner) fields f0 v path c =
+      if v.isNil then { r := .ok .null, errs := [], cache := c } else
+      match v with
+      | .list items =>
+        completeItemsWith inner path (fun v p c => completeValue memo S D fuel inner fields f0 v p c) items 0 [] [] c
+      | _ => { r := .err (errAt f0 path .notList), errs := [], cache := c } := by
+  simp only [completeValue]
+  rfl
+
+theorem completeValue_named (memo : Bool) (S : Schema) (D : Document) (fuel : Nat) (n : String)
+    (fields : List FieldNode) (f0 : FieldNode) (v : RVal) (path : Path) (c : Cache) :
+    completeValue memo S D (fuel + 1) (.named n) fields f0 v path c =
+      if v.isNil then { r := .ok .null, errs := [], cache := c } else
+      match S.lookup n with
+      | none => { r := .stuck (.panic "dangling type reference"), errs := [], cache := c }
+      | some (.scalar k) =>
+        match v with
+        | .leaf g =>
+          match coerceScalar k g with
+          | some j => { r := .ok j, errs := [], cache := c }
+          | none => { r := .err (errAt f0 path .scalarResult), errs := [], cache := c }
+        | _ => { r := .err (errAt f0 path .scalarResult), errs := [], cache := c }
+      | some (.enum values) =>
+        match v with
+        | .leaf g =>
+          match coerceEnum values g with
+          | some j => { r := .ok j, errs := [], cache := c }
+          | none => { r := .err (errAt f0 path (.enumResult n)), errs := [], cache := c }
+        | _ => { r := .err (errAt f0 path (.enumResult n)), errs := [], cache := c }
+      | some (.object fs is) =>
+        execSelections memo S D fuel { name := n, fields := fs, ifaces := is } (mergeSelectionSets fields) v path c
+      | some (.interface _) =>
+        match (S.implementations n).find? (fun t => isTypeOf t v) with
+        | none => { r := .err (errAt f0 path .noObjectType), errs := [], cache := c }
+        | some tn =>
+          match S.object? tn with
+          | none => { r := .stuck (.panic "implementation is not an object type"), errs := [], cache := c }
+          | some o => execSelections memo S D fuel o (mergeSelectionSets fields) v path c
+      | some (.union members) =>
+        match members.find? (fun t => isTypeOf t v) with
+        | none => { r := .err (errAt f0 path .noObjectType), errs := [], cache := c }
+        | some tn =>
+          match S.object? tn with
+          | none => { r := .stuck (.panic "union member is not an object type"), errs := [], cache := c }
+          | some o => execSelections memo S D fuel o (mergeSelectionSets fields) v path c := by
+  simp only [completeValue]
+  rfl
+
+theorem execSelections_succ (memo : Bool) (S : Schema) (D : Document) (fuel : Nat) (o : ObjT) (sels : List Selection)
+    (objVal : RVal) (path : Path) (c : Cache) :
+    execSelections memo S D (fuel + 1) o sels objVal path c =
+      match collectFields memo S D fuel o sels c with
+      | .error s => { r := .stuck s, errs := [], cache := c }
+      | .ok (g, c) =>
+        execItemsWith o path
+          (fun fields f0 fd p c =>
+            execFieldWith (fun t v p c => completeValue memo S D fuel t fields f0 v p c) objVal fields f0 fd p c)
+          g [] [] c := by
+  simp only [execSelections]
+  rfl
+
+def MonoC (memo : Bool) (S : Schema) (D : Document) (fuel : Nat) : Prop :=
+  ∀ t fields f0 v path c, (completeValue memo S D fuel t fields f0 v path c).r.notStuck →
+    completeValue memo S D (fuel + 1) t fields f0 v path c = completeValue memo S D fuel t fields f0 v path c
+
+def MonoS (memo : Bool) (S : Schema) (D : Document) (fuel : Nat) : Prop :=
+  ∀ o sels v path c, (execSelections memo S D fuel o sels v path c).r.notStuck →
+    execSelections memo S D (fuel + 1) o sels v path c = execSelections memo S D fuel o sels v path c
+
+theorem execFieldWith_mono (c0 c1 : TypeRef → RVal → Path → Cache → Out)
+    (h : ∀ t v p c, (c0 t v p c).r.notStuck → c1 t v p c = c0 t v p c)
+    (objVal : RVal) (fields : List FieldNode) (fn : FieldNode) (fd : FieldDef) (p : Path) (c : Cache)
+    (hn : (execFieldWith c0 objVal fields fn fd p c).r.notStuck) :
+    execFieldWith c1 objVal fields fn fd p c = execFieldWith c0 objVal fields fn fd p c := by
+  unfold execFieldWith at hn ⊢
+  cases hae : fn.argErr with
+  | some ae => rfl
+  | none =>
+    simp only [hae] at hn ⊢
+    cases hres : resolve objVal fn.wkey with
+    | err m => rfl
+    | val v => simp only [hres] at hn ⊢; exact h _ _ _ _ hn
+
+theorem monoS_succ (memo : Bool) (S : Schema) (D : Document) (fuel : Nat) (ihc : MonoC memo S D fuel) :
+    MonoS memo S D (fuel + 1) := by
+  intro o sels v path c hn
+  rw [execSelections_succ] at hn
+  rw [execSelections_succ, execSelections_succ]
+  cases hc : collectFields memo S D fuel o sels c with
+  | error st => simp [hc, R.notStuck] at hn
+  | ok gc =>
+    obtain ⟨g, c'⟩ := gc
+    simp only [hc] at hn ⊢
+    rw [collectFields_mono memo S D fuel o sels c (g, c') hc]
+    simp only
+    apply execItemsWith_mono
+    · intro fields fn fd p c hn'
+      exact execFieldWith_mono _ _ (fun t v p c h => ihc t fields fn v p c h) v fields fn fd p c hn'
+    · exact hn
+
+theorem monoC_succ (memo : Bool) (S : Schema) (D : Document) (fuel : Nat) (ihc : MonoC memo S D fuel)
+    (ihs : MonoS memo S D fuel) : MonoC memo S D (fuel + 1) := by
+  intro t fields f0 v path c hn
+  cases t with
+  | nonNull inner =>
+    rw [completeValue_nonNull] at hn
+    rw [completeValue_nonNull, completeValue_nonNull]
+    have hin : (completeValue memo S D fuel inner fields f0 v path c).r.notStuck := by
+      cases hr : (completeValue memo S D fuel inner fields f0 v path c).r with
+      | ok j => trivial
+      | err e => trivial
+      | stuck st => simp [hr, R.notStuck] at hn
+    rw [ihc inner fields f0 v path c hin]
+  | list inner =>
+    rw [completeValue_list] at hn
+    rw [completeValue_list, completeValue_list]
+    by_cases hnil : v.isNil = true
+    · simp [hnil]
+    · simp only [hnil, Bool.false_eq_true, if_false] at hn ⊢
+      cases v with
+      | list items =>
+        simp only at hn ⊢
+        rw [completeItemsWith_eq] at hn
+        rw [completeItemsWith_eq, completeItemsWith_eq]
+        simp only [List.nil_append] at hn ⊢
+        have := runItems_mono inner path (fun v p c => completeValue memo S D fuel inner fields f0 v p c)
+          (fun v p c => completeValue memo S D (fuel + 1) inner fields f0 v p c)
+          (fun v p c h => ihc inner fields f0 v p c h) items 0 c
+          (fun r hr => joinResults_notStuck_mem _ hn r hr)
+        rw [this]
+      | leaf g => rfl
+      | null => rfl
+      | tnil => rfl
+      | obj ty es => rfl
+  | named n =>
+    rw [completeValue_named] at hn
+    rw [completeValue_named, completeValue_named]
+    by_cases hnil : v.isNil = true
+    · simp [hnil]
+    · simp only [hnil, Bool.false_eq_true, if_false] at hn ⊢
+      cases hl : S.lookup n with
+      | none => rfl
+      | some td =>
+        cases td with
+        | scalar k => rfl
+        | enum values => rfl
+        | object fs is =>
+          simp only [hl] at hn ⊢
+          exact ihs _ _ _ _ _ hn
+        | interface fs =>
+          simp only [hl] at hn ⊢
+          cases hf : (S.implementations n).find? (fun t => isTypeOf t v) with
+          | none => rfl
+          | some tn =>
+            simp only [hf] at hn ⊢
+            cases ho : S.object? tn with
+            | none => rfl
+            | some o => simp only [ho] at hn ⊢; exact ihs _ _ _ _ _ hn
+        | union ms =>
+          simp only [hl] at hn ⊢
+          cases hf : ms.find? (fun t => isTypeOf t v) with
+          | none => rfl
+          | some tn =>
+            simp only [hf] at hn ⊢
+            cases ho : S.object? tn with
+            | none => rfl
+            | some o => simp only [ho] at hn ⊢; exact ihs _ _ _ _ _ hn
+
+theorem mono_main (memo : Bool) (S : Schema) (D : Document) (fuel : Nat) : MonoC memo S D fuel ∧ MonoS memo S D fuel := by
+  induction fuel with
+  | zero =>
+    constructor
+    · intro t fields f0 v path c hn; simp [completeValue, R.notStuck] at hn
+    · intro o sels v path c hn; simp [execSelections, R.notStuck] at hn
+  | succ fuel ih => exact ⟨monoC_succ memo S D fuel ih.1 ih.2, monoS_succ memo S D fuel ih.1⟩
+
+/-- more fuel never changes a response -/
+theorem execute_mono (memo : Bool) (S : Schema) (D : Document) (fuel k : Nat) (opName : String) (root : RVal) (resp : Response)
+    (h : execute memo S D fuel opName root = .ok resp) : execute memo S D (fuel + k) opName root = .ok resp := by
+  induction k with
+  | zero => exact h
+  | succ k ih =>
+    unfold execute at ih ⊢
+    cases hgo : getOperation D opName with
+    | error e => simp only [hgo] at ih ⊢; exact ih
+    | ok op =>
+      simp only [hgo] at ih ⊢
+      cases hroot : (rootTypeName S op.kind).bind S.object? with
+      | none => simp only [hroot] at ih ⊢; exact ih
+      | some o =>
+        simp only [hroot] at ih ⊢
+        have hn : (execSelections memo S D (fuel + k) o op.sels root [] []).r.notStuck := by
+          cases hr : (execSelections memo S D (fuel + k) o op.sels root [] []).r with
+          | ok j => trivial
+          | err e => trivial
+          | stuck st => simp [hr] at ih
+        have := (mono_main memo S D (fuel + k)).2 o op.sels root [] [] hn
+        rw [show fuel + (k + 1) = fuel + k + 1 from rfl, this]
+        exact ih
+
+
+/-! ### blank slots: the refinement without any well-typedness hypothesis -/
+
+mutual
+  /-- erase the blank slots (`"" : null`, the untouched entries of the pre-sized result map that the
+      executor leaves for fields not defined on the object type), recursively -/
+  def Json.strip : Json → Json
+    | .arr xs => .arr (stripList xs)
+    | .obj kvs => .obj (stripFields kvs)
+    | .null => .null
+    | .bool b => .bool b
+    | .int z => .int z
+    | .num m e => .num m e
+    | .str s => .str s
+  def stripList : List Json → List Json
+    | [] => []
+    | x :: xs => x.strip :: stripList xs
+  def stripFields : List (String × Json) → List (String × Json)
+    | [] => []
+    | (k, v) :: rest => if k = "" then stripFields rest else (k, v.strip) :: stripFields rest
+end
+
+theorem stripFields_append (a b : List (String × Json)) : stripFields (a ++ b) = stripFields a ++ stripFields b := by
+  induction a with
+  | nil => rfl
+  | cons p rest ih =>
+    obtain ⟨k, v⟩ := p
+    by_cases hk : k = ""
+    · simp [stripFields, hk, ih]
+    · simp [stripFields, hk, ih]
+
+theorem strip_eq_null (j : Json) : j.strip = .null ↔ j = .null := by
+  cases j <;> simp [Json.strip]
+
+theorem strip_resultCoerce (k : ScalarKind) (g : GoVal) (j : Json) (h : Spec.resultCoerce k g = some j) : j.strip = j := by
+  cases k with
+  | int =>
+    simp only [Spec.resultCoerce] at h
+    cases ha : Spec.asInteger? g with
+    | none => simp [ha] at h
+    | some z =>
+      simp only [ha] at h
+      split at h
+      · simp only [Option.some.injEq] at h; subst h; rfl
+      · simp at h
+  | float => cases g <;> simp [Spec.resultCoerce] at h <;> subst h <;> rfl
+  | string => cases g <;> simp [Spec.resultCoerce] at h <;> subst h <;> rfl
+  | boolean => cases g <;> simp [Spec.resultCoerce] at h <;> subst h <;> rfl
+  | id => cases g <;> simp [Spec.resultCoerce] at h <;> subst h <;> rfl
+
+theorem strip_enumCoerce (values : List (String × GoVal)) (g : GoVal) (j : Json) (h : Spec.enumCoerce values g = some j) :
+    j.strip = j := by
+  unfold Spec.enumCoerce at h
+  cases hf : values.find? (fun p => decide (p.2 = g)) with
+  | none => simp [hf] at h
+  | some p => simp [hf] at h; subst h; rfl
+
+/-- Model outcome against reference outcome at one response position; the model's data is compared
+    with its blank slots erased. No hypothesis on the document's typing. -/
+def SimS (out : Out) (s : Spec.SOut) : Prop :=
+  match out.r with
+  | .ok j => s.data = some j.strip ∧ s.req ⊆ₘ out.errs ∧ out.errs ⊆ₘ s.all
+  | .err e => s.data = none ∧ s.req = [e] ∧ (out.errs ++ [e]) ⊆ₘ s.all
+  | .stuck _ => True
+
+theorem simS_catch (t : TypeRef) (out : Out) (s : Spec.SOut) (h : SimS out s) :
+    SimS (catchIfNullable t out) (Spec.atPosition t s) := by
+  have key : ∀ (out' : Out) (s' : Spec.SOut),
+      (out' = match out.r with
+              | .err e => { out with r := .ok .null, errs := out.errs ++ [e] }
+              | _ => out) →
+      (s' = match s.data with
+            | none => { s with data := some .null }
+            | some _ => s) → SimS out' s' := by
+    intro out' s' ho hs
+    unfold SimS at h ⊢
+    cases hr : out.r with
+    | ok j =>
+      simp only [hr] at h ho
+      obtain ⟨h1, h2, h3⟩ := h
+      simp only [h1] at hs
+      subst ho; subst hs
+      simp only [hr]
+      exact ⟨h1, h2, h3⟩
+    | err e =>
+      simp only [hr] at h ho
+      obtain ⟨h1, h2, h3⟩ := h
+      simp only [h1] at hs
+      subst ho; subst hs
+      show (some Json.null = some (Json.strip Json.null)) ∧ s.req ⊆ₘ (out.errs ++ [e]) ∧ (out.errs ++ [e]) ⊆ₘ s.all
+      refine ⟨rfl, ?_, h3⟩
+      rw [h2]
+      exact SubMulti.append_left _ (SubMulti.refl _)
+    | stuck st =>
+      simp only [hr] at ho
+      subst ho
+      simp only [hr]
+  cases t with
+  | nonNull t => exact h
+  | named n => exact key _ _ rfl rfl
+  | list t => exact key _ _ rfl rfl
+
+theorem simS_fieldError (e : Err) (c : Cache) : SimS { r := .err e, errs := [], cache := c } (Spec.fieldError e) :=
+  ⟨rfl, rfl, SubMulti.refl _⟩
+
+theorem simS_completed (j : Json) (hj : j.strip = j) (c : Cache) : SimS { r := .ok j, errs := [], cache := c } (Spec.completed j) := by
+  unfold SimS
+  simp only [Spec.completed, hj]
+  exact ⟨trivial, SubMulti.refl _, SubMulti.refl _⟩
+
+theorem simS_stuck (c : Cache) (st : Stuck) (errs : List Err) (s : Spec.SOut) : SimS { r := .stuck st, errs := errs, cache := c } s := by
+  unfold SimS; trivial
+
+def SimObjS (acc : List (String × Json)) (errs : List Err) (out : Out) (s : Spec.SOut) : Prop :=
+  match out.r with
+  | .ok j => ∃ kvs E, s.data = some (.obj (stripFields kvs)) ∧ j = .obj (acc ++ kvs) ∧ out.errs = errs ++ E ∧ s.req ⊆ₘ E ∧ E ⊆ₘ s.all
+  | .err e => ∃ E, s.data = none ∧ s.req = [e] ∧ out.errs = errs ++ E ∧ (E ++ [e]) ⊆ₘ s.all
+  | .stuck _ => True
+
+
+theorem combineFields_none_fields (rs : List (Option (String × Spec.SOut))) :
+    (Spec.combineFields (none :: rs)).data = (Spec.combineFields rs).data ∧
+    (Spec.combineFields (none :: rs)).all = (Spec.combineFields rs).all ∧
+    (Spec.combineFields (none :: rs)).req = (Spec.combineFields rs).req := by
+  rw [combineFields_none]; exact ⟨rfl, rfl, rfl⟩
+
+theorem execItems_simS (I : Cache → Prop) (F : List FieldNode → Prop) (o : ObjT) (objVal : RVal) (path : Path)
+    (mc : List FieldNode → FieldNode → TypeRef → RVal → Path → Cache → Out)
+    (sc : TypeRef → List FieldNode → FieldNode → RVal → Path → Option Spec.SOut)
+    (H : ∀ fields f0 t v p c s, I c → F fields → sc t fields f0 v p = some s →
+      SimS (mc fields f0 t v p c) s ∧ I (mc fields f0 t v p c).cache)
+    (g : Grouped) (acc : List (String × Json)) (errs : List Err) (c : Cache)
+    (rs : List (Option (String × Spec.SOut)))
+    (hI : I c) (hF : ∀ p ∈ g, F p.2) (hK : ∀ p ∈ g, p.1 ≠ "")
+    (hrs : g.mapM (Spec.executeEntry o objVal path sc) = some rs) :
+    SimObjS acc errs
+      (execItemsWith o path
+        (fun fields f0 fd p c => execFieldWith (fun t v p c => mc fields f0 t v p c) objVal fields f0 fd p c)
+        g acc errs c)
+      (Spec.combineFields rs) ∧
+    I (execItemsWith o path
+        (fun fields f0 fd p c => execFieldWith (fun t v p c => mc fields f0 t v p c) objVal fields f0 fd p c)
+        g acc errs c).cache := by
+  induction g generalizing acc errs c rs with
+  | nil =>
+    simp only [List.mapM_nil, pure, Option.some.injEq] at hrs
+    subst hrs
+    refine ⟨?_, hI⟩
+    simp only [SimObjS, execItemsWith, combineFields_nil]
+    exact ⟨[], [], rfl, by simp, by simp, SubMulti.nil _, SubMulti.nil _⟩
+  | cons p rest ih =>
+    obtain ⟨key, fields⟩ := p
+    obtain ⟨entry, rs', hentry, hrest, rfl⟩ := option_mapM_cons _ _ _ _ hrs
+    have hFrest : ∀ p ∈ rest, F p.2 := fun p hp => hF p (List.mem_cons_of_mem _ hp)
+    have hKrest : ∀ p ∈ rest, p.1 ≠ "" := fun p hp => hK p (List.mem_cons_of_mem _ hp)
+    have hFhere : F fields := hF (key, fields) (List.mem_cons_self ..)
+    have hkey : key ≠ "" := hK (key, fields) (List.mem_cons_self ..)
+    have hstrip : ∀ (j : Json) (kvs : List (String × Json)), stripFields ((key, j) :: kvs) = (key, j.strip) :: stripFields kvs := by
+      intro j kvs; simp [stripFields, hkey]
+    cases fields with
+    | nil => simp [Spec.executeEntry] at hentry
+    | cons f0 tl =>
+      simp only [execItemsWith, List.head?_cons]
+      by_cases htn : f0.name = "__typename"
+      · -- __typename
+        simp only [Spec.executeEntry, htn, if_true, Option.some.injEq] at hentry
+        subst hentry
+        simp only [htn, beq_self_eq_true, if_true]
+        obtain ⟨ih', ihI⟩ := ih (acc ++ [(key, .str o.name)]) errs c rs' hI hFrest hKrest hrest
+        refine ⟨?_, ihI⟩
+        unfold SimObjS at ih' ⊢
+        rw [combineFields_some_ok key _ (.str o.name) rs' rfl]
+        simp only [Spec.completed, List.nil_append]
+        cases hr : (execItemsWith o path _ rest (acc ++ [(key, .str o.name)]) errs c).r with
+        | ok j =>
+          simp only [hr] at ih' ⊢
+          obtain ⟨kvs, E, h1, h2, h3, h4, h5⟩ := ih'
+          refine ⟨(key, .str o.name) :: kvs, E, ?_, ?_, h3, ?_, h5⟩
+          · simp [h1, hstrip, Json.strip]
+          · simp [h2]
+          · simp only [h1]; exact h4
+        | err e =>
+          simp only [hr] at ih' ⊢
+          obtain ⟨E, h1, h2, h3, h4⟩ := ih'
+          refine ⟨E, ?_, ?_, h3, h4⟩
+          · simp [h1]
+          · simp only [h1]; exact h2
+        | stuck st => simp only [hr]
+      · have htn' : (f0.name == "__typename") = false := by simpa using htn
+        simp only [htn', Bool.false_eq_true, if_false]
+        simp only [Spec.executeEntry, htn, if_false] at hentry
+        rw [getField_eq]
+        cases hfd : o.fields.find? (fun (fd : FieldDef) => decide (fd.name = f0.name)) with
+        | none =>
+          -- the field is not defined: the executor leaves the blank slot, the reference skips the field
+          simp only [hfd, Option.some.injEq] at hentry
+          subst hentry
+          obtain ⟨ih', ihI⟩ := ih (acc ++ [("", .null)]) errs c rs' hI hFrest hKrest hrest
+          refine ⟨?_, ihI⟩
+          unfold SimObjS at ih' ⊢
+          obtain ⟨hd, ha, hq⟩ := combineFields_none_fields rs'
+          rw [hd, ha, hq]
+          cases hr : (execItemsWith o path _ rest (acc ++ [("", .null)]) errs c).r with
+          | ok j =>
+            simp only [hr] at ih' ⊢
+            obtain ⟨kvs, E, h1, h2, h3, h4, h5⟩ := ih'
+            refine ⟨("", .null) :: kvs, E, ?_, ?_, h3, h4, h5⟩
+            · simp [h1, stripFields]
+            · simp [h2]
+          | err e => simp only [hr] at ih' ⊢; exact ih'
+          | stuck st => simp only [hr]
+        | some fd =>
+          simp only [hfd] at hentry
+          have hex : ∃ r0, entry = some (key, Spec.atPosition fd.type r0) ∧
+              SimS (execFieldWith (fun t v p c => mc (f0 :: tl) f0 t v p c) objVal (f0 :: tl) f0 fd (path ++ [.key key]) c) r0 ∧
+              I (execFieldWith (fun t v p c => mc (f0 :: tl) f0 t v p c) objVal (f0 :: tl) f0 fd (path ++ [.key key]) c).cache := by
+            unfold execFieldWith
+            cases hae : f0.argErr with
+            | some ae =>
+              simp only [hae, Option.map_some, Option.some.injEq] at hentry
+              exact ⟨_, hentry.symm, simS_fieldError _ _, hI⟩
+            | none =>
+              simp only [hae] at hentry
+              cases hres : resolve objVal f0.wkey with
+              | err m =>
+                simp only [hres, Option.map_some, Option.some.injEq] at hentry
+                exact ⟨_, hentry.symm, simS_fieldError _ _, hI⟩
+              | val v =>
+                simp only [hres] at hentry
+                cases hsc : sc fd.type (f0 :: tl) f0 v (path ++ [PathSeg.key key]) with
+                | none => simp [hsc] at hentry
+                | some r0 =>
+                  simp only [hsc, Option.map_some, Option.some.injEq] at hentry
+                  have := H _ _ _ _ _ _ _ hI hFhere hsc
+                  exact ⟨r0, hentry.symm, this.1, this.2⟩
+          obtain ⟨r0, rfl, hsim0, hI0⟩ := hex
+          have hsim := simS_catch fd.type _ _ hsim0
+          have hIc : I (catchIfNullable fd.type (execFieldWith (fun t v p c => mc (f0 :: tl) f0 t v p c) objVal (f0 :: tl) f0 fd (path ++ [.key key]) c)).cache := by
+            rw [catch_cache]; exact hI0
+          generalize hout0 : catchIfNullable fd.type (execFieldWith (fun t v p c => mc (f0 :: tl) f0 t v p c) objVal (f0 :: tl) f0 fd (path ++ [.key key]) c) = out0 at hsim hIc
+          simp only [hout0]
+          unfold SimS at hsim
+          cases hr : out0.r with
+          | stuck st => simp only [hr]; exact ⟨by unfold SimObjS; trivial, hIc⟩
+          | err e0 =>
+            simp only [hr] at hsim ⊢
+            refine ⟨?_, hIc⟩
+            obtain ⟨hd, h2, h3⟩ := hsim
+            unfold SimObjS
+            rw [combineFields_some_fail key _ rs' hd]
+            exact ⟨out0.errs, rfl, h2, rfl, SubMulti.append_right _ h3⟩
+          | ok j0 =>
+            simp only [hr] at hsim ⊢
+            obtain ⟨hd, h02, h03⟩ := hsim
+            obtain ⟨ih', ihI⟩ := ih (acc ++ [(key, j0)]) (errs ++ out0.errs) out0.cache rs' hIc hFrest hKrest hrest
+            refine ⟨?_, ihI⟩
+            unfold SimObjS at ih' ⊢
+            rw [combineFields_some_ok key _ j0.strip rs' hd]
+            cases hr2 : (execItemsWith o path _ rest (acc ++ [(key, j0)]) (errs ++ out0.errs) out0.cache).r with
+            | stuck st => simp only
+            | ok j2 =>
+              simp only [hr2] at ih' ⊢
+              obtain ⟨kvs, E, h1, h2, h3, h4, h5⟩ := ih'
+              refine ⟨(key, j0) :: kvs, out0.errs ++ E, ?_, ?_, ?_, ?_, ?_⟩
+              · simp [h1, hstrip]
+              · simp [h2]
+              · simp [h3]
+              · simp only [h1]; exact SubMulti.append h02 h4
+              · exact SubMulti.append h03 h5
+            | err e2 =>
+              simp only [hr2] at ih' ⊢
+              obtain ⟨E, h1, h2, h3, h4⟩ := ih'
+              refine ⟨out0.errs ++ E, ?_, ?_, ?_, ?_⟩
+              · simp [h1]
+              · simp only [h1]; exact h2
+              · simp [h3]
+              · rw [List.append_assoc]; exact SubMulti.append h03 h4
+
+
+theorem runItems_simS (I : Cache → Prop) (inner : TypeRef) (path : Path)
+    (mc : RVal → Path → Cache → Out) (sc : RVal → Path → Option Spec.SOut)
+    (H : ∀ v p c s, I c → sc v p = some s → SimS (mc v p c) s ∧ I (mc v p c).cache)
+    (items : List RVal) (i : Nat) (c : Cache) (rs : List Spec.SOut) (hI : I c)
+    (hrs : (items.zipIdx i).mapM (Spec.completeItem inner path sc) = some rs) :
+    SimS { r := joinResults (runItems inner path mc items i c).1, errs := (runItems inner path mc items i c).2.1,
+           cache := (runItems inner path mc items i c).2.2 } (Spec.combineItems rs) ∧
+    I (runItems inner path mc items i c).2.2 := by
+  induction items generalizing i c rs with
+  | nil =>
+    simp only [List.zipIdx_nil, List.mapM_nil, pure, Option.some.injEq] at hrs
+    subst hrs
+    refine ⟨?_, hI⟩
+    simp only [SimS, runItems, joinResults_nil, combineItems_nil, Json.strip, stripList]
+    exact ⟨trivial, SubMulti.nil _, SubMulti.nil _⟩
+  | cons v rest ih =>
+    simp only [List.zipIdx_cons] at hrs
+    obtain ⟨s0, rs', hs0, hrest, rfl⟩ := option_mapM_cons _ _ _ _ hrs
+    simp only [Spec.completeItem] at hs0
+    cases hsc : sc v (path ++ [PathSeg.idx i]) with
+    | none => simp [hsc] at hs0
+    | some r0 =>
+      simp only [hsc, Option.map_some, Option.some.injEq] at hs0
+      subst hs0
+      have hH := H v (path ++ [.idx i]) c r0 hI hsc
+      have hsim := simS_catch inner _ _ hH.1
+      have hIc : I (catchIfNullable inner (mc v (path ++ [.idx i]) c)).cache := by rw [catch_cache]; exact hH.2
+      simp only [runItems]
+      generalize hout0 : catchIfNullable inner (mc v (path ++ [.idx i]) c) = out0 at hsim hIc
+      obtain ⟨ih', ihI⟩ := ih (i + 1) out0.cache rs' hIc hrest
+      generalize hRs : runItems inner path mc rest (i + 1) out0.cache = run at ih' ihI
+      obtain ⟨Rs, Es, c'⟩ := run
+      simp only at ih' ihI ⊢
+      refine ⟨?_, ihI⟩
+      unfold SimS at hsim ih' ⊢
+      cases hr : out0.r with
+      | stuck st => simp only [joinResults_stuck]
+      | ok j0 =>
+        simp only [hr] at hsim
+        obtain ⟨hd, h02, h03⟩ := hsim
+        rw [combineItems_ok _ j0.strip rs' hd, joinResults_ok]
+        cases hjr : joinResults Rs with
+        | stuck st => simp only
+        | err e =>
+          simp only [hjr] at ih' ⊢
+          obtain ⟨h1, h2, h3⟩ := ih'
+          refine ⟨by simp [h1], by simp only [h1]; exact h2, ?_⟩
+          rw [List.append_assoc]
+          exact SubMulti.append h03 h3
+        | ok jr =>
+          obtain ⟨js, rfl⟩ := joinResults_ok_shape Rs jr hjr
+          simp only [hjr] at ih' ⊢
+          obtain ⟨h1, h2, h3⟩ := ih'
+          refine ⟨by simp [h1, Json.strip, stripList], by simp only [h1, Json.strip]; exact SubMulti.append h02 h2, SubMulti.append h03 h3⟩
+      | err e0 =>
+        simp only [hr] at hsim
+        obtain ⟨hd, h02, h03⟩ := hsim
+        rw [combineItems_fail _ rs' hd, joinResults_err]
+        cases hjr : joinResults Rs with
+        | stuck st => simp only
+        | err e =>
+          simp only [hjr] at ih' ⊢
+          obtain ⟨_, _, h3⟩ := ih'
+          refine ⟨by first | rfl | trivial, h02, ?_⟩
+          have h3' := SubMulti.of_append_left h3
+          intro x
+          have a1 := h03 x
+          have a2 := h3' x
+          simp only [List.count_append] at a1 a2 ⊢
+          omega
+        | ok jr =>
+          simp only [hjr] at ih' ⊢
+          obtain ⟨_, _, h3⟩ := ih'
+          refine ⟨by first | rfl | trivial, h02, ?_⟩
+          intro x
+          have a1 := h03 x
+          have a2 := h3 x
+          simp only [List.count_append] at a1 a2 ⊢
+          omega
+
+theorem simS_nonNull (out : Out) (r : Spec.SOut) (f0 : FieldNode) (path : Path) (h : SimS out r) :
+    SimS (match out.r with
+          | .ok .null => { out with r := .err (errAt f0 path .nullNonNull) }
+          | _ => out)
+         (match r.data with
+          | some .null =>
+            { r with data := none, all := r.all ++ [{ msg := .nullNonNull, path := path, locs := [f0.pos] }],
+                     req := [{ msg := .nullNonNull, path := path, locs := [f0.pos] }] }
+          | _ => r) := by
+  unfold SimS at h ⊢
+  cases hr : out.r with
+  | stuck st => simp only [hr]
+  | err e =>
+    simp only [hr] at h ⊢
+    obtain ⟨h1, h2, h3⟩ := h
+    simp only [h1]
+    exact ⟨trivial, h2, h3⟩
+  | ok j =>
+    simp only [hr] at h
+    obtain ⟨h1, h2, h3⟩ := h
+    cases j with
+    | null =>
+      simp only [h1, Json.strip]
+      refine ⟨by first | rfl | trivial, by first | rfl | trivial, ?_⟩
+      exact SubMulti.append h3 (SubMulti.refl _)
+    | bool b => simp only [h1, hr, Json.strip]; exact ⟨trivial, h2, h3⟩
+    | int z => simp only [h1, hr, Json.strip]; exact ⟨trivial, h2, h3⟩
+    | num m e => simp only [h1, hr, Json.strip]; exact ⟨trivial, h2, h3⟩
+    | str x => simp only [h1, hr, Json.strip]; exact ⟨trivial, h2, h3⟩
+    | arr xs => simp only [h1, hr, Json.strip]; exact ⟨trivial, h2, h3⟩
+    | obj kvs => simp only [h1, hr, Json.strip]; exact ⟨trivial, h2, h3⟩
+
+theorem simS_of_simObjS (out : Out) (s : Spec.SOut) (h : SimObjS [] [] out s) : SimS out s := by
+  unfold SimObjS at h
+  unfold SimS
+  cases hr : out.r with
+  | stuck st => trivial
+  | ok j =>
+    simp only [hr] at h
+    obtain ⟨kvs, E, h1, h2, h3, h4, h5⟩ := h
+    simp only [List.nil_append] at h2 h3
+    subst h2
+    rw [h3]
+    exact ⟨by simp [h1, Json.strip], h4, h5⟩
+  | err e =>
+    simp only [hr] at h
+    obtain ⟨E, h1, h2, h3, h4⟩ := h
+    simp only [List.nil_append] at h3
+    rw [h3]
+    exact ⟨h1, h2, h4⟩
+
+
+/-- a property of the field nodes made from the document's field selections -/
+def FieldNodesHave (P : Selection → Prop) (Q : FieldNode → Prop) : Prop :=
+  ∀ pos alias name wkey ae dirs sub, P (.field pos alias name wkey ae dirs sub) →
+    Q { pos, alias, name, wkey, argErr := ae, sels := sub }
+
+theorem expandStep_all (S : Schema) (D : Document) (o : ObjT) (P : Selection → Prop) (hP : NodeSet D P)
+    (Q : FieldNode → Prop) (hQ : FieldNodesHave P Q)
+    (recur : List Selection → List String → Except Stuck Expanded)
+    (hrec : ∀ sels vis r, (∀ s ∈ sels, P s) → recur sels vis = .ok r → ∀ f ∈ r.1, Q f)
+    (acc : Expanded) (sel : Selection) (r : Expanded) (hacc : ∀ f ∈ acc.1, Q f) (hsel : P sel)
+    (h : expandStep S D o recur acc sel = .ok r) : ∀ f ∈ r.1, Q f := by
+  unfold expandStep at h
+  by_cases hs : skipped sel.dirs
+  · simp only [hs, if_true, Except.ok.injEq] at h; subst h; exact hacc
+  · simp only [hs, Bool.false_eq_true, if_false] at h
+    have happ : ∀ (fs : List FieldNode), (∀ f ∈ fs, Q f) → ∀ f ∈ acc.1 ++ fs, Q f := by
+      intro fs hfs f hf
+      rcases List.mem_append.mp hf with h1 | h1
+      · exact hacc f h1
+      · exact hfs f h1
+    cases sel with
+    | field pos alias name wkey argErr dirs sub =>
+      simp only [Except.ok.injEq] at h
+      subst h
+      apply happ
+      intro f hf
+      simp only [List.mem_singleton] at hf
+      subst hf
+      exact hQ _ _ _ _ _ _ _ hsel
+    | spread pos name dirs =>
+      by_cases hv : acc.2.contains name = true
+      · simp only [hv, if_true, Except.ok.injEq] at h; subst h; exact hacc
+      · simp only [hv, Bool.false_eq_true, if_false] at h
+        cases hf : D.frag? name with
+        | none => simp only [hf, Except.ok.injEq] at h; subst h; exact hacc
+        | some fr =>
+          simp only [hf] at h
+          cases ha : fragmentApplies S o fr.tc with
+          | no => simp only [ha, Except.ok.injEq] at h; subst h; exact hacc
+          | panic => simp [ha] at h
+          | yes =>
+            simp only [ha] at h
+            cases hr : recur fr.sels (name :: acc.2) with
+            | error e => simp [hr] at h
+            | ok r' =>
+              simp only [hr, Except.ok.injEq] at h
+              subst h
+              exact happ _ (hrec _ _ _ (hP.frags fr (frag?_mem D name fr hf)) hr)
+    | inline pos tc dirs sub =>
+      have hsub := hP.inline_sub _ _ _ _ hsel
+      have key : ∀ (h' : (match recur sub acc.2 with
+                          | .ok r => Except.ok (acc.1 ++ r.1, r.2)
+                          | .error e => Except.error e) = Except.ok r), ∀ f ∈ r.1, Q f := by
+        intro h'
+        cases hr : recur sub acc.2 with
+        | error e => simp [hr] at h'
+        | ok r' =>
+          simp only [hr, Except.ok.injEq] at h'
+          subst h'
+          exact happ _ (hrec _ _ _ hsub hr)
+      cases tc with
+      | none => exact key h
+      | some tc =>
+        simp only at h
+        cases ha : fragmentApplies S o tc with
+        | no => simp only [ha, Except.ok.injEq] at h; subst h; exact hacc
+        | panic => simp [ha] at h
+        | yes => simp only [ha] at h; exact key h
+
+theorem expand_all (S : Schema) (D : Document) (o : ObjT) (P : Selection → Prop) (hP : NodeSet D P)
+    (Q : FieldNode → Prop) (hQ : FieldNodesHave P Q)
+    (fuel : Nat) (sels : List Selection) (vis : List String) (r : Expanded)
+    (hsels : ∀ s ∈ sels, P s) (h : expand S D o fuel sels vis = .ok r) : ∀ f ∈ r.1, Q f := by
+  induction fuel generalizing sels vis r with
+  | zero => simp [expand] at h
+  | succ fuel ih =>
+    simp only [expand] at h
+    have fold : ∀ (sels : List Selection) (acc r : Expanded), (∀ s ∈ sels, P s) → (∀ f ∈ acc.1, Q f) →
+        sels.foldlM (expandStep S D o (expand S D o fuel)) acc = .ok r → ∀ f ∈ r.1, Q f := by
+      intro sels
+      induction sels with
+      | nil =>
+        intro acc r _ hacc h
+        simp only [List.foldlM_nil, pure, Except.pure, Except.ok.injEq] at h
+        subst h; exact hacc
+      | cons sel rest ihl =>
+        intro acc r hs hacc h
+        simp only [List.foldlM_cons] at h
+        cases h1 : expandStep S D o (expand S D o fuel) acc sel with
+        | error e => simp [h1, bind, Except.bind] at h
+        | ok acc' =>
+          simp only [h1, bind, Except.bind] at h
+          have hacc' := expandStep_all S D o P hP Q hQ _ (fun sels vis r hs hr => ih sels vis r hs hr) acc sel acc' hacc
+            (hs sel (List.mem_cons_self ..)) h1
+          exact ihl acc' r (fun s hs' => hs s (List.mem_cons_of_mem _ hs')) hacc' h
+    exact fold sels ([], vis) r hsels (by intro f hf; simp at hf) h
+
+theorem foldl_step_mem (ks acc : List String) (k : String)
+    (h : k ∈ ks.foldl (fun acc k => if k ∈ acc then acc else acc ++ [k]) acc) : k ∈ acc ∨ k ∈ ks := by
+  induction ks generalizing acc with
+  | nil => exact Or.inl h
+  | cons a rest ih =>
+    simp only [List.foldl_cons] at h
+    rcases ih _ h with h1 | h1
+    · by_cases ha : a ∈ acc
+      · simp only [ha, if_true] at h1; exact Or.inl h1
+      · simp only [ha, if_false, List.mem_append, List.mem_singleton] at h1
+        rcases h1 with h1 | h1
+        · exact Or.inl h1
+        · exact Or.inr (by simp [h1])
+    · exact Or.inr (List.mem_cons_of_mem _ h1)
+
+theorem groupInOrder_key_mem (fs : List FieldNode) (p : String × List FieldNode) (hp : p ∈ groupInOrder fs) :
+    ∃ f ∈ fs, f.responseKey = p.1 := by
+  have hk : p.1 ∈ (groupInOrder fs).keys := List.mem_map_of_mem (f := (·.1)) hp
+  rw [groupInOrder_keys, firstOccurrences] at hk
+  rcases foldl_step_mem _ _ _ hk with h | h
+  · simp at h
+  · obtain ⟨f, hf, hfk⟩ := List.mem_map.mp h
+    exact ⟨f, hf, hfk⟩
+
+/-- response keys of the document's field selections are non-empty (they are GraphQL Names) -/
+def KeysOK (P : Selection → Prop) : Prop := FieldNodesHave P (fun f => f.responseKey ≠ "")
+
+
+def SimCompleteS (memo : Bool) (S : Schema) (D : Document) (P : Selection → Prop) (fuel : Nat) : Prop :=
+  ∀ fuel' t fields f0 v path c s, CacheOK S D P c → FieldsIn P fields →
+    Spec.completeValue S D fuel' t fields f0 v path = some s →
+    SimS (completeValue memo S D fuel t fields f0 v path c) s ∧
+    CacheOK S D P (completeValue memo S D fuel t fields f0 v path c).cache
+
+def SimSelectionsS (memo : Bool) (S : Schema) (D : Document) (P : Selection → Prop) (fuel : Nat) : Prop :=
+  ∀ fuel' o sels v path c s, CacheOK S D P c → S.object? o.name = some o → (∀ x ∈ sels, P x) →
+    Spec.executeSelectionSet S D fuel' o sels v path = some s →
+    SimS (execSelections memo S D fuel o sels v path c) s ∧
+    CacheOK S D P (execSelections memo S D fuel o sels v path c).cache
+
+theorem simSelectionsS_succ (memo : Bool) (S : Schema) (D : Document) (P : Selection → Prop) (hP : NodeSet D P)
+    (hK : KeysOK P) (fuel : Nat) (ih : SimCompleteS memo S D P fuel) : SimSelectionsS memo S D P (fuel + 1) := by
+  intro fuel' o sels v path c s hc ho hsels hs
+  cases fuel' with
+  | zero => simp [Spec.executeSelectionSet] at hs
+  | succ fuel' =>
+    simp only [Spec.executeSelectionSet] at hs
+    cases hcs : Spec.collectFields S D o fuel' sels [] with
+    | none => simp [hcs] at hs
+    | some gv =>
+      obtain ⟨g, vis⟩ := gv
+      simp only [hcs] at hs
+      cases hrs : g.mapM (Spec.executeEntry o v path (Spec.completeValue S D fuel')) with
+      | none => simp [hrs] at hs
+      | some rs =>
+        simp only [hrs, Option.map_some, Option.some.injEq] at hs
+        subst hs
+        simp only [execSelections]
+        cases hcm : collectFields memo S D fuel o sels c with
+        | error st => exact ⟨simS_stuck _ _ _ _, hc⟩
+        | ok gc =>
+          obtain ⟨g', c'⟩ := gc
+          simp only
+          obtain ⟨hc', fuel0, fs, v0, he, hg'⟩ := collectFields_inv memo S D P hP fuel o sels c g' c' hc ho hsels hcm
+          obtain ⟨hg, _⟩ := spec_collect_eq_expand S D o fuel0 fuel' sels [] fs v0 g vis he hcs
+          have hgg : g' = g := by rw [hg', hg]
+          subst hgg
+          have hF : ∀ p ∈ g', FieldsIn P p.2 := by
+            intro p hp
+            rw [hg'] at hp
+            exact groupInOrder_fieldsIn P fs (expand_fieldsIn S D o P hP fuel0 sels [] (fs, v0) hsels he) p hp
+          have hKg : ∀ p ∈ g', p.1 ≠ "" := by
+            intro p hp
+            rw [hg'] at hp
+            obtain ⟨f, hf, hfk⟩ := groupInOrder_key_mem fs p hp
+            rw [← hfk]
+            exact expand_all S D o P hP _ hK fuel0 sels [] (fs, v0) hsels he f hf
+          have := execItems_simS (CacheOK S D P) (FieldsIn P) o v path
+            (fun fields f0 t v p c => completeValue memo S D fuel t fields f0 v p c)
+            (Spec.completeValue S D fuel') (fun fields f0 t v p c s hI hF h => ih fuel' t fields f0 v p c s hI hF h)
+            g' [] [] c' rs hc' hF hKg hrs
+          exact ⟨simS_of_simObjS _ _ this.1, this.2⟩
+
+theorem simCompleteS_succ (memo : Bool) (S : Schema) (D : Document) (P : Selection → Prop)
+    (fuel : Nat) (ihc : SimCompleteS memo S D P fuel) (ihs : SimSelectionsS memo S D P fuel) :
+    SimCompleteS memo S D P (fuel + 1) := by
+  intro fuel' t fields f0 v path c s hc hF hs
+  cases fuel' with
+  | zero => simp [Spec.completeValue] at hs
+  | succ fuel' =>
+    cases t with
+    | nonNull inner =>
+      simp only [Spec.completeValue] at hs
+      rw [completeValue_nonNull]
+      cases hin : Spec.completeValue S D fuel' inner fields f0 v path with
+      | none => simp [hin] at hs
+      | some r =>
+        simp only [hin] at hs
+        obtain ⟨hsim, hcache⟩ := ihc fuel' inner fields f0 v path c r hc hF hin
+        have := simS_nonNull _ r f0 path hsim
+        have hcache' : CacheOK S D P
+            (match (completeValue memo S D fuel inner fields f0 v path c).r with
+             | .ok .null => { completeValue memo S D fuel inner fields f0 v path c with r := .err (errAt f0 path .nullNonNull) }
+             | _ => completeValue memo S D fuel inner fields f0 v path c).cache := by
+          cases hr : (completeValue memo S D fuel inner fields f0 v path c).r with
+          | ok j => cases j <;> exact hcache
+          | err e => exact hcache
+          | stuck st => exact hcache
+        refine ⟨?_, hcache'⟩
+        cases hd : r.data with
+        | none =>
+          simp only [hd, Option.some.injEq] at hs this
+          subst hs
+          exact this
+        | some j =>
+          cases j <;> simp only [hd, Option.some.injEq] at hs this <;> subst hs <;> exact this
+    | list inner =>
+      simp only [Spec.completeValue, isNullish_eq] at hs
+      rw [completeValue_list]
+      by_cases hnil : v.isNil = true
+      · simp only [hnil, if_true, Option.some.injEq] at hs ⊢
+        subst hs
+        exact ⟨simS_completed _ rfl _, hc⟩
+      · simp only [hnil, Bool.false_eq_true, if_false] at hs ⊢
+        cases v with
+        | list items =>
+          simp only at hs ⊢
+          cases hrs : (items.zipIdx).mapM (Spec.completeItem inner path (Spec.completeValue S D fuel' inner fields f0)) with
+          | none => simp [hrs] at hs
+          | some rs =>
+            simp only [hrs, Option.map_some, Option.some.injEq] at hs
+            subst hs
+            rw [completeItemsWith_eq]
+            simp only [List.nil_append]
+            exact runItems_simS (CacheOK S D P) inner path (fun v p c => completeValue memo S D fuel inner fields f0 v p c)
+              (Spec.completeValue S D fuel' inner fields f0) (fun v p c s hI h => ihc fuel' inner fields f0 v p c s hI hF h)
+              items 0 c rs hc hrs
+        | leaf g => simp only [Option.some.injEq] at hs ⊢; subst hs; exact ⟨simS_fieldError _ _, hc⟩
+        | null => simp [RVal.isNil] at hnil
+        | tnil => simp [RVal.isNil] at hnil
+        | obj ty es => simp only [Option.some.injEq] at hs ⊢; subst hs; exact ⟨simS_fieldError _ _, hc⟩
+    | named n =>
+      simp only [Spec.completeValue, isNullish_eq] at hs
+      rw [completeValue_named]
+      by_cases hnil : v.isNil = true
+      · simp only [hnil, if_true, Option.some.injEq] at hs ⊢
+        subst hs
+        exact ⟨simS_completed _ rfl _, hc⟩
+      · simp only [hnil, Bool.false_eq_true, if_false] at hs ⊢
+        have hmerge := mergeSelectionSets_in P fields hF
+        cases hl : S.lookup n with
+        | none => simp [hl] at hs
+        | some td =>
+          cases td with
+          | scalar k =>
+            simp only [hl] at hs ⊢
+            cases v with
+            | leaf g =>
+              simp only [coerceScalar_eq] at hs ⊢
+              cases hcr : Spec.resultCoerce k g with
+              | some j =>
+                simp only [hcr, Option.some.injEq] at hs ⊢; subst hs
+                exact ⟨simS_completed _ (strip_resultCoerce k g j hcr) _, hc⟩
+              | none => simp only [hcr, Option.some.injEq] at hs ⊢; subst hs; exact ⟨simS_fieldError _ _, hc⟩
+            | null => simp [RVal.isNil] at hnil
+            | tnil => simp [RVal.isNil] at hnil
+            | list items => simp only [Option.some.injEq] at hs ⊢; subst hs; exact ⟨simS_fieldError _ _, hc⟩
+            | obj ty es => simp only [Option.some.injEq] at hs ⊢; subst hs; exact ⟨simS_fieldError _ _, hc⟩
+          | enum values =>
+            simp only [hl] at hs ⊢
+            cases v with
+            | leaf g =>
+              simp only [coerceEnum_eq] at hs ⊢
+              cases hcr : Spec.enumCoerce values g with
+              | some j =>
+                simp only [hcr, Option.some.injEq] at hs ⊢; subst hs
+                exact ⟨simS_completed _ (strip_enumCoerce values g j hcr) _, hc⟩
+              | none => simp only [hcr, Option.some.injEq] at hs ⊢; subst hs; exact ⟨simS_fieldError _ _, hc⟩
+            | null => simp [RVal.isNil] at hnil
+            | tnil => simp [RVal.isNil] at hnil
+            | list items => simp only [Option.some.injEq] at hs ⊢; subst hs; exact ⟨simS_fieldError _ _, hc⟩
+            | obj ty es => simp only [Option.some.injEq] at hs ⊢; subst hs; exact ⟨simS_fieldError _ _, hc⟩
+          | object fs is =>
+            simp only [hl, mergeSelectionSets_eq] at hs ⊢
+            exact ihs fuel' _ _ _ _ c s hc (object?_of_lookup S n fs is hl) hmerge hs
+          | interface fs =>
+            simp only [hl, mergeSelectionSets_eq, implementations_eq S n fs hl] at hs ⊢
+            cases hf : (S.implementations n).find? (fun t => isTypeOf t v) with
+            | none => simp only [hf, Option.some.injEq] at hs ⊢; subst hs; exact ⟨simS_fieldError _ _, hc⟩
+            | some tn =>
+              simp only [hf] at hs ⊢
+              cases ho : S.object? tn with
+              | none => simp [ho] at hs
+              | some o =>
+                simp only [ho] at hs ⊢
+                exact ihs fuel' _ _ _ _ c s hc (object?_name S tn o ho) hmerge hs
+          | union ms =>
+            simp only [hl, mergeSelectionSets_eq, possibleTypes_union S n ms hl] at hs ⊢
+            cases hf : ms.find? (fun t => isTypeOf t v) with
+            | none => simp only [hf, Option.some.injEq] at hs ⊢; subst hs; exact ⟨simS_fieldError _ _, hc⟩
+            | some tn =>
+              simp only [hf] at hs ⊢
+              cases ho : S.object? tn with
+              | none => simp [ho] at hs
+              | some o =>
+                simp only [ho] at hs ⊢
+                exact ihs fuel' _ _ _ _ c s hc (object?_name S tn o ho) hmerge hs
+
+/-- **Refinement of the executor model as written (memo included) to the reference, for every
+    document** whose selection nodes have distinct positions and non-empty response keys: data modulo
+    blank slots, errors sandwiched. No typing hypothesis. -/
+theorem simS_main (memo : Bool) (S : Schema) (D : Document) (P : Selection → Prop) (hP : NodeSet D P) (hK : KeysOK P)
+    (fuel : Nat) : SimCompleteS memo S D P fuel ∧ SimSelectionsS memo S D P fuel := by
+  induction fuel with
+  | zero =>
+    constructor
+    · intro fuel' t fields f0 v path c s hc _ _
+      simp only [completeValue]
+      exact ⟨simS_stuck _ _ _ _, hc⟩
+    · intro fuel' o sels v path c s hc _ _ _
+      simp only [execSelections]
+      exact ⟨simS_stuck _ _ _ _, hc⟩
+  | succ fuel ih =>
+    exact ⟨simCompleteS_succ memo S D P fuel ih.1 ih.2, simSelectionsS_succ memo S D P hP hK fuel ih.1⟩
+
+/-- The whole request, without a typing hypothesis. -/
+theorem execute_refinesS (memo : Bool) (S : Schema) (D : Document) (P : Selection → Prop) (hP : NodeSet D P) (hK : KeysOK P)
+    (hops : ∀ op ∈ D.ops, ∀ s ∈ op.sels, P s)
+    (fuel fuel' : Nat) (opName : String) (root : RVal) (resp : Response) (s : Spec.SOut)
+    (hm : execute memo S D fuel opName root = .ok resp)
+    (hs : Spec.executeRequest S D fuel' opName root = .executed s) :
+    resp.data.map Json.strip = s.data ∧ s.req ⊆ₘ resp.errors ∧ resp.errors ⊆ₘ s.all := by
+  unfold Spec.executeRequest at hs
+  unfold execute at hm
+  cases hgo : Spec.getOperation D opName with
+  | none => simp [hgo] at hs
+  | some op =>
+    simp only [hgo, rootType_eq] at hs
+    rw [(getOperation_agree D opName).1 op hgo] at hm
+    simp only at hm
+    cases hroot : (rootTypeName S op.kind).bind S.object? with
+    | none => simp [hroot] at hs
+    | some o =>
+      simp only [hroot] at hs hm
+      have ho : S.object? o.name = some o := by
+        cases hk : rootTypeName S op.kind with
+        | none => simp [hk] at hroot
+        | some tn =>
+          simp only [hk, Option.bind_some] at hroot
+          exact object?_name S tn o hroot
+      cases hss : Spec.executeSelectionSet S D fuel' o op.sels root [] with
+      | none => simp [hss] at hs
+      | some s' =>
+        simp only [hss, Spec.Result.executed.injEq] at hs
+        subst hs
+        have hsim := ((simS_main memo S D P hP hK fuel).2 fuel' o op.sels root [] [] s' (cacheOK_nil S D P) ho
+          (hops op (spec_getOperation_mem D opName op hgo)) hss).1
+        unfold SimS at hsim
+        cases hr : (execSelections memo S D fuel o op.sels root [] []).r with
+        | stuck st => simp [hr] at hm
+        | ok j =>
+          simp only [hr, Except.ok.injEq] at hm hsim
+          subst hm
+          exact ⟨hsim.1.symm, hsim.2.1, hsim.2.2⟩
+        | err e =>
+          simp only [hr, Except.ok.injEq] at hm hsim
+          subst hm
+          refine ⟨hsim.1.symm, ?_, hsim.2.2⟩
+          rw [hsim.2.1]
+          exact SubMulti.append_left _ (SubMulti.refl _)
+
+
+/-- a field selection's response key is non-empty (aliases and names are GraphQL Names) -/
+def Selection.keyOK : Selection → Prop
+  | .field _ alias name _ _ _ _ => alias.getD name ≠ ""
+  | _ => True
+
+instance (s : Selection) : Decidable s.keyOK := by
+  cases s <;> simp only [Selection.keyOK] <;> exact inferInstance
+
+theorem keysOK_of_nodes (D : Document) (h : ∀ s ∈ D.nodes, s.keyOK) : KeysOK (· ∈ D.nodes) := by
+  intro pos alias name wkey ae dirs sub hm
+  have := h _ hm
+  simp only [Selection.keyOK] at this
+  simp only [FieldNode.responseKey]
+  cases alias <;> simpa using this
+
+/-! ### fuel sufficiency: documents without fragment cycles -/
+
+/-- A descent certificate: every step the executor takes from a selection node — into a field's or
+    inline fragment's sub-selections, or from a spread into the fragment's selections — lowers `lvl`.
+    A document has one exactly when its fragment spreads form no cycle (validation rule
+    NoFragmentCycles). -/
+structure Descends (D : Document) (P : Selection → Prop) (lvl : Selection → Nat) : Prop where
+  field : ∀ pos alias name wkey ae dirs sub, P (.field pos alias name wkey ae dirs sub) →
+    ∀ s ∈ sub, lvl s < lvl (.field pos alias name wkey ae dirs sub)
+  inline : ∀ pos tc dirs sub, P (.inline pos tc dirs sub) → ∀ s ∈ sub, lvl s < lvl (.inline pos tc dirs sub)
+  spread : ∀ pos name dirs fr, P (.spread pos name dirs) → D.frag? name = some fr →
+    ∀ s ∈ fr.sels, lvl s < lvl (.spread pos name dirs)
+
+def NotOof : Except Stuck α → Prop
+  | .error .outOfFuel => False
+  | _ => True
+
+theorem collectStep_notOof (S : Schema) (D : Document) (o : ObjT) (P : Selection → Prop) (hP : NodeSet D P)
+    (lvl : Selection → Nat) (hL : Descends D P lvl) (fuel : Nat)
+    (recur : List Selection → CState → Except Stuck CState)
+    (hrec : ∀ sels st, (∀ s ∈ sels, P s ∧ lvl s + 2 ≤ fuel) → 1 ≤ fuel → NotOof (recur sels st))
+    (st : CState) (sel : Selection) (hsel : P sel) (hl : lvl sel + 1 ≤ fuel) :
+    NotOof (collectStep S D o recur st sel) := by
+  unfold collectStep
+  by_cases hs : skipped sel.dirs = true
+  · simp [hs, NotOof, pure, Except.pure]
+  · simp only [hs, Bool.false_eq_true, if_false]
+    have hfuel : 1 ≤ fuel := by omega
+    cases sel with
+    | field pos alias name wkey argErr dirs sub => simp [NotOof, pure, Except.pure]
+    | spread pos name dirs =>
+      simp only
+      by_cases hv : name ∈ st.visited
+      · simp [hv, NotOof, pure, Except.pure]
+      · simp only [List.contains_eq_mem, hv, decide_false, Bool.false_eq_true, if_false]
+        cases hf : D.frag? name with
+        | none => simp [NotOof, pure, Except.pure]
+        | some fr =>
+          simp only
+          cases ha : fragmentApplies S o fr.tc with
+          | no => simp [NotOof, pure, Except.pure]
+          | panic => simp [NotOof]
+          | yes =>
+            simp only
+            apply hrec _ _ _ hfuel
+            intro s hs'
+            refine ⟨hP.frags fr (frag?_mem D name fr hf) s hs', ?_⟩
+            have := hL.spread pos name dirs fr hsel hf s hs'
+            omega
+    | inline pos tc dirs sub =>
+      have hsub : ∀ s ∈ sub, P s ∧ lvl s + 2 ≤ fuel := by
+        intro s hs'
+        refine ⟨hP.inline_sub _ _ _ _ hsel s hs', ?_⟩
+        have := hL.inline pos tc dirs sub hsel s hs'
+        omega
+      cases tc with
+      | none => exact hrec _ _ hsub hfuel
+      | some tc =>
+        simp only
+        cases ha : fragmentApplies S o tc with
+        | no => simp [NotOof, pure, Except.pure]
+        | panic => simp [NotOof]
+        | yes => exact hrec _ _ hsub hfuel
+
+theorem collectImpl_notOof (S : Schema) (D : Document) (o : ObjT) (P : Selection → Prop) (hP : NodeSet D P)
+    (lvl : Selection → Nat) (hL : Descends D P lvl) (fuel : Nat) (sels : List Selection) (st : CState)
+    (hsels : ∀ s ∈ sels, P s ∧ lvl s + 2 ≤ fuel) (hfuel : 1 ≤ fuel) :
+    NotOof (collectImpl S D o fuel sels st) := by
+  induction fuel generalizing sels st with
+  | zero => omega
+  | succ fuel ih =>
+    rw [collectImpl]
+    have fold : ∀ (sels : List Selection) (st : CState), (∀ s ∈ sels, P s ∧ lvl s + 1 ≤ fuel) →
+        NotOof (sels.foldlM (collectStep S D o (collectImpl S D o fuel)) st) := by
+      intro sels
+      induction sels with
+      | nil => intro st _; simp [NotOof, pure, Except.pure]
+      | cons sel rest ihl =>
+        intro st hs
+        simp only [List.foldlM_cons]
+        have h1 := collectStep_notOof S D o P hP lvl hL fuel (collectImpl S D o fuel)
+          (fun sels st h hf => ih sels st h hf) st sel (hs sel (List.mem_cons_self ..)).1 (hs sel (List.mem_cons_self ..)).2
+        cases hstep : collectStep S D o (collectImpl S D o fuel) st sel with
+        | error e =>
+          rw [hstep] at h1
+          simp only [bind, Except.bind]
+          exact h1
+        | ok st1 =>
+          simp only [bind, Except.bind]
+          exact ihl st1 (fun s hs' => hs s (List.mem_cons_of_mem _ hs'))
+    apply fold
+    intro s hs
+    have := hsels s hs
+    exact ⟨this.1, by omega⟩
+
+
+theorem catch_r_stuck (t : TypeRef) (out : Out) (st : Stuck) (h : (catchIfNullable t out).r = .stuck st) : out.r = .stuck st := by
+  cases t with
+  | nonNull t => exact h
+  | named n => simp only [catchIfNullable] at h; cases hr : out.r <;> simp_all
+  | list t => simp only [catchIfNullable] at h; cases hr : out.r <;> simp_all
+
+theorem execItemsWith_notOof (I : Cache → Prop) (o : ObjT) (path : Path)
+    (field : List FieldNode → FieldNode → FieldDef → Path → Cache → Out)
+    (g : Grouped) (acc : List (String × Json)) (errs : List Err) (c : Cache)
+    (H : ∀ p ∈ g, ∀ fn fd pth c, I c → p.2.head? = some fn → o.getField fn.name = some fd →
+      (field p.2 fn fd pth c).r ≠ .stuck .outOfFuel ∧ I (field p.2 fn fd pth c).cache)
+    (hI : I c) :
+    (execItemsWith o path field g acc errs c).r ≠ .stuck .outOfFuel ∧ I (execItemsWith o path field g acc errs c).cache := by
+  induction g generalizing acc errs c with
+  | nil => simp [execItemsWith, hI]
+  | cons p rest ih =>
+    obtain ⟨key, fields⟩ := p
+    have Hrest : ∀ p ∈ rest, ∀ fn fd pth c, I c → p.2.head? = some fn → o.getField fn.name = some fd →
+        (field p.2 fn fd pth c).r ≠ .stuck .outOfFuel ∧ I (field p.2 fn fd pth c).cache :=
+      fun p hp => H p (List.mem_cons_of_mem _ hp)
+    simp only [execItemsWith]
+    cases hh : fields.head? with
+    | none => simp [hI]
+    | some fn =>
+      simp only
+      by_cases htn : (fn.name == "__typename") = true
+      · simp only [htn, if_true]; exact ih _ _ _ Hrest hI
+      · simp only [htn, Bool.false_eq_true, if_false]
+        cases hfd : o.getField fn.name with
+        | none => simp only; exact ih _ _ _ Hrest hI
+        | some fd =>
+          simp only
+          obtain ⟨h1, h2⟩ := H (key, fields) (List.mem_cons_self ..) fn fd (path ++ [.key key]) c hI hh hfd
+          have h2' : I (catchIfNullable fd.type (field fields fn fd (path ++ [.key key]) c)).cache := by
+            rw [catch_cache]; exact h2
+          cases hr : (catchIfNullable fd.type (field fields fn fd (path ++ [.key key]) c)).r with
+          | ok j => simp only; exact ih _ _ _ Hrest h2'
+          | err e => simp only; exact ⟨by simp, h2'⟩
+          | stuck st =>
+            simp only
+            refine ⟨?_, h2'⟩
+            intro hst
+            simp only [R.stuck.injEq] at hst
+            subst hst
+            exact h1 (catch_r_stuck _ _ _ hr)
+
+theorem joinResults_oof (rs : List R) (h : joinResults rs = .stuck .outOfFuel) : .stuck .outOfFuel ∈ rs := by
+  simp only [joinResults] at h
+  cases hf : rs.findSome? R.stuck? with
+  | none =>
+    simp only [hf] at h
+    cases he : rs.findSome? R.err? with
+    | none => rw [he] at h; exact absurd h (by simp)
+    | some e => rw [he] at h; exact absurd h (by simp)
+  | some st =>
+    simp only [hf, R.stuck.injEq] at h
+    subst h
+    obtain ⟨r, hr, hs⟩ := List.exists_of_findSome?_eq_some hf
+    cases r with
+    | ok j => simp [R.stuck?] at hs
+    | err e => simp [R.stuck?] at hs
+    | stuck st => simp only [R.stuck?, Option.some.injEq] at hs; subst hs; exact hr
+
+theorem runItems_notOof (I : Cache → Prop) (inner : TypeRef) (path : Path) (item : RVal → Path → Cache → Out)
+    (H : ∀ v p c, I c → (item v p c).r ≠ .stuck .outOfFuel ∧ I (item v p c).cache)
+    (items : List RVal) (i : Nat) (c : Cache) (hI : I c) :
+    (∀ r ∈ (runItems inner path item items i c).1, r ≠ .stuck .outOfFuel) ∧ I (runItems inner path item items i c).2.2 := by
+  induction items generalizing i c with
+  | nil => simp [runItems, hI]
+  | cons v rest ih =>
+    simp only [runItems]
+    obtain ⟨h1, h2⟩ := H v (path ++ [.idx i]) c hI
+    have h2' : I (catchIfNullable inner (item v (path ++ [.idx i]) c)).cache := by rw [catch_cache]; exact h2
+    obtain ⟨ih1, ih2⟩ := ih (i + 1) _ h2'
+    refine ⟨?_, ih2⟩
+    intro r hr
+    rcases List.mem_cons.mp hr with hr | hr
+    · rw [hr]
+      intro hst
+      exact h1 (catch_r_stuck _ _ _ hst)
+    · exact ih1 r hr
+
+theorem foldl_max_le (l : List Nat) (init : Nat) : init ≤ l.foldl max init ∧ ∀ x ∈ l, x ≤ l.foldl max init := by
+  induction l generalizing init with
+  | nil => simp
+  | cons a rest ih =>
+    simp only [List.foldl_cons]
+    obtain ⟨h1, h2⟩ := ih (max init a)
+    refine ⟨by omega, ?_⟩
+    intro x hx
+    rcases List.mem_cons.mp hx with rfl | hx
+    · omega
+    · exact h2 x hx
+
+theorem foldl_max_map_le {α : Type} (f : α → Nat) (l : List α) (init : Nat) (x : α) (hx : x ∈ l) :
+    f x ≤ l.foldl (fun m a => max m (f a)) init := by
+  have : l.foldl (fun m a => max m (f a)) init = (l.map f).foldl max init := by
+    rw [List.foldl_map]
+  rw [this]
+  exact (foldl_max_le (l.map f) init).2 _ (List.mem_map_of_mem (f := f) hx)
+
+theorem wrappers_le_max (S : Schema) (n : String) (o : ObjT) (ho : S.object? n = some o) (fd : FieldDef) (hfd : fd ∈ o.fields) :
+    fd.type.wrappers ≤ S.maxWrappers := by
+  unfold Schema.object? at ho
+  cases hl : S.lookup n with
+  | none => simp [hl] at ho
+  | some td =>
+    cases td with
+    | object fs is =>
+      simp only [hl, Option.some.injEq] at ho
+      subst ho
+      -- the type definition is an element of S.types
+      unfold Schema.lookup at hl
+      cases hf : S.types.find? (fun p => p.1 == n) with
+      | none => simp [hf] at hl
+      | some p =>
+        simp only [hf, Option.some.injEq] at hl
+        have hm := List.mem_of_find?_eq_some hf
+        have h1 : fd.type.wrappers ≤ p.2.maxWrappers := by
+          rw [hl]
+          exact foldl_max_map_le (fun f => f.type.wrappers) fs 0 fd hfd
+        have h2 : p.2.maxWrappers ≤ S.maxWrappers := foldl_max_map_le (fun p => p.2.maxWrappers) S.types 0 p hm
+        omega
+    | scalar k => simp [hl] at ho
+    | interface fs => simp [hl] at ho
+    | union ms => simp [hl] at ho
+    | enum vs => simp [hl] at ho
+
+
+/-- the sub-selections of these field nodes are document nodes of level below `B` -/
+def SubBound (P : Selection → Prop) (lvl : Selection → Nat) (B : Nat) (fields : List FieldNode) : Prop :=
+  ∀ f ∈ fields, ∀ t ∈ f.sels, P t ∧ lvl t < B
+
+theorem expandStep_bound (S : Schema) (D : Document) (o : ObjT) (P : Selection → Prop) (hP : NodeSet D P)
+    (lvl : Selection → Nat) (hL : Descends D P lvl) (B : Nat)
+    (recur : List Selection → List String → Except Stuck Expanded)
+    (hrec : ∀ sels vis r, (∀ s ∈ sels, P s ∧ lvl s ≤ B) → recur sels vis = .ok r → SubBound P lvl B r.1)
+    (acc : Expanded) (sel : Selection) (r : Expanded) (hacc : SubBound P lvl B acc.1) (hsel : P sel) (hl : lvl sel ≤ B)
+    (h : expandStep S D o recur acc sel = .ok r) : SubBound P lvl B r.1 := by
+  unfold expandStep at h
+  by_cases hs : skipped sel.dirs
+  · simp only [hs, if_true, Except.ok.injEq] at h; subst h; exact hacc
+  · simp only [hs, Bool.false_eq_true, if_false] at h
+    have happ : ∀ (fs : List FieldNode), SubBound P lvl B fs → SubBound P lvl B (acc.1 ++ fs) := by
+      intro fs hfs f hf
+      rcases List.mem_append.mp hf with h1 | h1
+      · exact hacc f h1
+      · exact hfs f h1
+    cases sel with
+    | field pos alias name wkey argErr dirs sub =>
+      simp only [Except.ok.injEq] at h
+      subst h
+      apply happ
+      intro f hf t ht
+      simp only [List.mem_singleton] at hf
+      subst hf
+      refine ⟨hP.field_sub _ _ _ _ _ _ _ hsel t ht, ?_⟩
+      have := hL.field _ _ _ _ _ _ _ hsel t ht
+      omega
+    | spread pos name dirs =>
+      by_cases hv : acc.2.contains name = true
+      · simp only [hv, if_true, Except.ok.injEq] at h; subst h; exact hacc
+      · simp only [hv, Bool.false_eq_true, if_false] at h
+        cases hf : D.frag? name with
+        | none => simp only [hf, Except.ok.injEq] at h; subst h; exact hacc
+        | some fr =>
+          simp only [hf] at h
+          cases ha : fragmentApplies S o fr.tc with
+          | no => simp only [ha, Except.ok.injEq] at h; subst h; exact hacc
+          | panic => simp [ha] at h
+          | yes =>
+            simp only [ha] at h
+            cases hr : recur fr.sels (name :: acc.2) with
+            | error e => simp [hr] at h
+            | ok r' =>
+              simp only [hr, Except.ok.injEq] at h
+              subst h
+              apply happ
+              apply hrec _ _ _ _ hr
+              intro s' hs'
+              refine ⟨hP.frags fr (frag?_mem D name fr hf) s' hs', ?_⟩
+              have := hL.spread pos name dirs fr hsel hf s' hs'
+              omega
+    | inline pos tc dirs sub =>
+      have hsub : ∀ s' ∈ sub, P s' ∧ lvl s' ≤ B := by
+        intro s' hs'
+        refine ⟨hP.inline_sub _ _ _ _ hsel s' hs', ?_⟩
+        have := hL.inline pos tc dirs sub hsel s' hs'
+        omega
+      have key : ∀ (h' : (match recur sub acc.2 with
+                          | .ok r => Except.ok (acc.1 ++ r.1, r.2)
+                          | .error e => Except.error e) = Except.ok r), SubBound P lvl B r.1 := by
+        intro h'
+        cases hr : recur sub acc.2 with
+        | error e => simp [hr] at h'
+        | ok r' =>
+          simp only [hr, Except.ok.injEq] at h'
+          subst h'
+          exact happ _ (hrec _ _ _ hsub hr)
+      cases tc with
+      | none => exact key h
+      | some tc =>
+        simp only at h
+        cases ha : fragmentApplies S o tc with
+        | no => simp only [ha, Except.ok.injEq] at h; subst h; exact hacc
+        | panic => simp [ha] at h
+        | yes => simp only [ha] at h; exact key h
+
+theorem expand_bound (S : Schema) (D : Document) (o : ObjT) (P : Selection → Prop) (hP : NodeSet D P)
+    (lvl : Selection → Nat) (hL : Descends D P lvl) (B : Nat)
+    (fuel : Nat) (sels : List Selection) (vis : List String) (r : Expanded)
+    (hsels : ∀ s ∈ sels, P s ∧ lvl s ≤ B) (h : expand S D o fuel sels vis = .ok r) : SubBound P lvl B r.1 := by
+  induction fuel generalizing sels vis r with
+  | zero => simp [expand] at h
+  | succ fuel ih =>
+    simp only [expand] at h
+    have fold : ∀ (sels : List Selection) (acc r : Expanded), (∀ s ∈ sels, P s ∧ lvl s ≤ B) → SubBound P lvl B acc.1 →
+        sels.foldlM (expandStep S D o (expand S D o fuel)) acc = .ok r → SubBound P lvl B r.1 := by
+      intro sels
+      induction sels with
+      | nil =>
+        intro acc r _ hacc h
+        simp only [List.foldlM_nil, pure, Except.pure, Except.ok.injEq] at h
+        subst h; exact hacc
+      | cons sel rest ihl =>
+        intro acc r hs hacc h
+        simp only [List.foldlM_cons] at h
+        cases h1 : expandStep S D o (expand S D o fuel) acc sel with
+        | error e => simp [h1, bind, Except.bind] at h
+        | ok acc' =>
+          simp only [h1, bind, Except.bind] at h
+          have hacc' := expandStep_bound S D o P hP lvl hL B _ (fun sels vis r hs hr => ih sels vis r hs hr) acc sel acc' hacc
+            (hs sel (List.mem_cons_self ..)).1 (hs sel (List.mem_cons_self ..)).2 h1
+          exact ihl acc' r (fun s hs' => hs s (List.mem_cons_of_mem _ hs')) hacc' h
+    exact fold sels ([], vis) r hsels (by intro f hf; simp at hf) h
+
+theorem groupInOrder_subBound (P : Selection → Prop) (lvl : Selection → Nat) (B : Nat) (fs : List FieldNode)
+    (h : SubBound P lvl B fs) (p : String × List FieldNode) (hp : p ∈ groupInOrder fs) : SubBound P lvl B p.2 := by
+  intro f hf
+  rcases foldl_appendNode_mem fs [] p.1 p.2 hp f hf with h1 | ⟨_, _, h2, _⟩
+  · exact h f h1
+  · simp at h2
+
+
+/-- fuel that suffices to execute selections of level below `L` (W = deepest list/non-null nesting
+    of a field type of the schema) -/
+def needSel (W L : Nat) : Nat := L * (W + 3) + 3
+
+def NoOofC (memo : Bool) (S : Schema) (D : Document) (P : Selection → Prop) (lvl : Selection → Nat) (fuel : Nat) : Prop :=
+  ∀ t fields f0 v path c L, CacheOK S D P c → SubBound P lvl L fields →
+    t.wrappers + needSel S.maxWrappers L + 1 ≤ fuel →
+    (completeValue memo S D fuel t fields f0 v path c).r ≠ .stuck .outOfFuel ∧
+    CacheOK S D P (completeValue memo S D fuel t fields f0 v path c).cache
+
+def NoOofS (memo : Bool) (S : Schema) (D : Document) (P : Selection → Prop) (lvl : Selection → Nat) (fuel : Nat) : Prop :=
+  ∀ o sels v path c L, CacheOK S D P c → S.object? o.name = some o → (∀ s ∈ sels, P s ∧ lvl s < L) →
+    needSel S.maxWrappers L ≤ fuel →
+    (execSelections memo S D fuel o sels v path c).r ≠ .stuck .outOfFuel ∧
+    CacheOK S D P (execSelections memo S D fuel o sels v path c).cache
+
+theorem expand_nil (S : Schema) (D : Document) (o : ObjT) (fuel : Nat) (vis : List String) (r : Expanded)
+    (h : expand S D o fuel [] vis = .ok r) : r.1 = [] := by
+  cases fuel with
+  | zero => simp [expand] at h
+  | succ fuel =>
+    simp only [expand, List.foldlM_nil, pure, Except.pure, Except.ok.injEq] at h
+    rw [← h]
+
+theorem collectFields_error_notOof (memo : Bool) (S : Schema) (D : Document) (P : Selection → Prop) (hP : NodeSet D P)
+    (lvl : Selection → Nat) (hL : Descends D P lvl) (fuel : Nat) (o : ObjT) (sels : List Selection) (c : Cache) (st : Stuck)
+    (hsels : ∀ s ∈ sels, P s ∧ lvl s + 2 ≤ fuel) (hfuel : 1 ≤ fuel)
+    (h : collectFields memo S D fuel o sels c = .error st) : st ≠ .outOfFuel := by
+  unfold collectFields at h
+  simp only at h
+  cases hget : (if memo = true then c.get? (cacheKey o sels) else none) with
+  | some g => simp [hget] at h
+  | none =>
+    simp only [hget] at h
+    have hn := collectImpl_notOof S D o P hP lvl hL fuel sels { visited := [], grouped := [] } hsels hfuel
+    cases hc : collectImpl S D o fuel sels { visited := [], grouped := [] } with
+    | ok st' => simp [hc] at h
+    | error e =>
+      simp only [hc, Except.error.injEq] at h
+      subst h
+      rw [hc] at hn
+      intro he
+      subst he
+      exact hn
+
+theorem noOofS_succ (memo : Bool) (S : Schema) (D : Document) (P : Selection → Prop) (hP : NodeSet D P)
+    (lvl : Selection → Nat) (hL : Descends D P lvl) (fuel : Nat) (ih : NoOofC memo S D P lvl fuel) :
+    NoOofS memo S D P lvl (fuel + 1) := by
+  intro o sels v path c L hc ho hsels hfuel
+  rw [execSelections_succ]
+  unfold needSel at hfuel
+  have hmul : L ≤ L * (S.maxWrappers + 3) := Nat.le_mul_of_pos_right L (by omega)
+  cases hcm : collectFields memo S D fuel o sels c with
+  | error st =>
+    simp only
+    refine ⟨?_, hc⟩
+    intro hst
+    simp only [R.stuck.injEq] at hst
+    subst hst
+    refine collectFields_error_notOof memo S D P hP lvl hL fuel o sels c _ ?_ (by omega) hcm rfl
+    intro s hs
+    have := hsels s hs
+    exact ⟨this.1, by omega⟩
+  | ok gc =>
+    obtain ⟨g', c'⟩ := gc
+    simp only
+    obtain ⟨hc', fuel0, fs, v0, he, hg'⟩ := collectFields_inv memo S D P hP fuel o sels c g' c' hc ho
+      (fun s hs => (hsels s hs).1) hcm
+    by_cases hL0 : L = 0
+    · -- no selection has a level below 0: nothing to execute
+      have hnil : sels = [] := by
+        apply List.eq_nil_iff_forall_not_mem.mpr
+        intro s hs
+        have := (hsels s hs).2
+        omega
+      subst hnil
+      have := expand_nil S D o fuel0 [] (fs, v0) he
+      simp only at this
+      subst this
+      subst hg'
+      simp only [groupInOrder, List.foldl_nil, execItemsWith]
+      exact ⟨by simp, hc'⟩
+    · have hbound : SubBound P lvl (L - 1) fs :=
+        expand_bound S D o P hP lvl hL (L - 1) fuel0 sels [] (fs, v0)
+          (fun s hs => ⟨(hsels s hs).1, by have := (hsels s hs).2; omega⟩) he
+      apply execItemsWith_notOof (CacheOK S D P)
+      · intro p hp fn fd pth c hIc hh hfd
+        have hpb : SubBound P lvl (L - 1) p.2 := by
+          rw [hg'] at hp
+          exact groupInOrder_subBound P lvl (L - 1) fs hbound p hp
+        unfold execFieldWith
+        cases hae : fn.argErr with
+        | some ae => exact ⟨by simp, hIc⟩
+        | none =>
+          simp only
+          cases hres : resolve v fn.wkey with
+          | err m => exact ⟨by simp, hIc⟩
+          | val rv =>
+            simp only
+            apply ih fd.type p.2 fn rv pth c (L - 1) hIc hpb
+            have hw : fd.type.wrappers ≤ S.maxWrappers := by
+              apply wrappers_le_max S o.name o ho fd
+              rw [getField_eq] at hfd
+              exact List.mem_of_find?_eq_some hfd
+            unfold needSel
+            have : L = (L - 1) + 1 := by omega
+            have hexp : L * (S.maxWrappers + 3) = (L - 1) * (S.maxWrappers + 3) + (S.maxWrappers + 3) := by
+              conv => lhs; rw [this, Nat.add_mul, Nat.one_mul]
+            omega
+      · exact hc'
+
+
+theorem subBound_merge (P : Selection → Prop) (lvl : Selection → Nat) (L : Nat) (fields : List FieldNode)
+    (h : SubBound P lvl L fields) : ∀ s ∈ mergeSelectionSets fields, P s ∧ lvl s < L := by
+  intro s hs
+  simp only [mergeSelectionSets, List.mem_flatMap] at hs
+  obtain ⟨f, hf, hs⟩ := hs
+  exact h f hf s hs
+
+theorem noOofC_succ (memo : Bool) (S : Schema) (D : Document) (P : Selection → Prop) (lvl : Selection → Nat)
+    (fuel : Nat) (ihc : NoOofC memo S D P lvl fuel) (ihs : NoOofS memo S D P lvl fuel) :
+    NoOofC memo S D P lvl (fuel + 1) := by
+  intro t fields f0 v path c L hc hb hfuel
+  cases t with
+  | nonNull inner =>
+    rw [completeValue_nonNull]
+    simp only [TypeRef.wrappers] at hfuel
+    obtain ⟨h1, h2⟩ := ihc inner fields f0 v path c L hc hb (by omega)
+    cases hr : (completeValue memo S D fuel inner fields f0 v path c).r with
+    | ok j =>
+      cases j with
+      | null => simp only; exact ⟨by simp, h2⟩
+      | bool b => simp only; exact ⟨h1, h2⟩
+      | int z => simp only; exact ⟨h1, h2⟩
+      | num m e => simp only; exact ⟨h1, h2⟩
+      | str x => simp only; exact ⟨h1, h2⟩
+      | arr xs => simp only; exact ⟨h1, h2⟩
+      | obj kvs => simp only; exact ⟨h1, h2⟩
+    | err e => simp only; exact ⟨h1, h2⟩
+    | stuck st => simp only; exact ⟨h1, h2⟩
+  | list inner =>
+    rw [completeValue_list]
+    simp only [TypeRef.wrappers] at hfuel
+    by_cases hnil : v.isNil = true
+    · simp only [hnil, if_true]; exact ⟨by simp, hc⟩
+    · simp only [hnil, Bool.false_eq_true, if_false]
+      cases v with
+      | list items =>
+        simp only
+        rw [completeItemsWith_eq]
+        simp only [List.nil_append]
+        obtain ⟨h1, h2⟩ := runItems_notOof (CacheOK S D P) inner path
+          (fun v p c => completeValue memo S D fuel inner fields f0 v p c)
+          (fun v p c hI => ihc inner fields f0 v p c L hI hb (by omega)) items 0 c hc
+        refine ⟨?_, h2⟩
+        intro hj
+        exact h1 _ (joinResults_oof _ hj) rfl
+      | leaf g => exact ⟨by simp, hc⟩
+      | null => exact ⟨by simp, hc⟩
+      | tnil => exact ⟨by simp, hc⟩
+      | obj ty es => exact ⟨by simp, hc⟩
+  | named n =>
+    rw [completeValue_named]
+    simp only [TypeRef.wrappers, Nat.zero_add] at hfuel
+    have hmerge := subBound_merge P lvl L fields hb
+    by_cases hnil : v.isNil = true
+    · simp only [hnil, if_true]; exact ⟨by simp, hc⟩
+    · simp only [hnil, Bool.false_eq_true, if_false]
+      cases hl : S.lookup n with
+      | none => exact ⟨by simp, hc⟩
+      | some td =>
+        cases td with
+        | scalar k =>
+          simp only
+          cases v with
+          | leaf g => simp only; cases coerceScalar k g <;> exact ⟨by simp, hc⟩
+          | null => exact ⟨by simp, hc⟩
+          | tnil => exact ⟨by simp, hc⟩
+          | list items => exact ⟨by simp, hc⟩
+          | obj ty es => exact ⟨by simp, hc⟩
+        | enum values =>
+          simp only
+          cases v with
+          | leaf g => simp only; cases coerceEnum values g <;> exact ⟨by simp, hc⟩
+          | null => exact ⟨by simp, hc⟩
+          | tnil => exact ⟨by simp, hc⟩
+          | list items => exact ⟨by simp, hc⟩
+          | obj ty es => exact ⟨by simp, hc⟩
+        | object fs is =>
+          simp only
+          exact ihs _ _ _ _ c L hc (object?_of_lookup S n fs is hl) hmerge (by omega)
+        | interface fs =>
+          simp only
+          cases hf : (S.implementations n).find? (fun t => isTypeOf t v) with
+          | none => exact ⟨by simp, hc⟩
+          | some tn =>
+            simp only
+            cases ho : S.object? tn with
+            | none => exact ⟨by simp, hc⟩
+            | some o => simp only; exact ihs _ _ _ _ c L hc (object?_name S tn o ho) hmerge (by omega)
+        | union ms =>
+          simp only
+          cases hf : ms.find? (fun t => isTypeOf t v) with
+          | none => exact ⟨by simp, hc⟩
+          | some tn =>
+            simp only
+            cases ho : S.object? tn with
+            | none => exact ⟨by simp, hc⟩
+            | some o => simp only; exact ihs _ _ _ _ c L hc (object?_name S tn o ho) hmerge (by omega)
+
+theorem noOof_main (memo : Bool) (S : Schema) (D : Document) (P : Selection → Prop) (hP : NodeSet D P)
+    (lvl : Selection → Nat) (hL : Descends D P lvl) (fuel : Nat) :
+    NoOofC memo S D P lvl fuel ∧ NoOofS memo S D P lvl fuel := by
+  induction fuel with
+  | zero =>
+    constructor
+    · intro t fields f0 v path c L _ _ hfuel; unfold needSel at hfuel; omega
+    · intro o sels v path c L _ _ _ hfuel; unfold needSel at hfuel; omega
+  | succ fuel ih => exact ⟨noOofC_succ memo S D P lvl fuel ih.1 ih.2, noOofS_succ memo S D P hP lvl hL fuel ih.1⟩
+
+/-- With a descent certificate of height `L` for the operation's selections, `needSel W L` fuel is
+    enough: the run never ends in `outOfFuel`. -/
+theorem execute_notOof (memo : Bool) (S : Schema) (D : Document) (P : Selection → Prop) (hP : NodeSet D P)
+    (lvl : Selection → Nat) (hL : Descends D P lvl) (L : Nat)
+    (hops : ∀ op ∈ D.ops, ∀ s ∈ op.sels, P s ∧ lvl s < L)
+    (fuel : Nat) (hfuel : needSel S.maxWrappers L ≤ fuel) (opName : String) (root : RVal) :
+    execute memo S D fuel opName root ≠ .error .outOfFuel := by
+  unfold execute
+  cases hgo : getOperation D opName with
+  | error e => simp
+  | ok op =>
+    simp only
+    cases hroot : (rootTypeName S op.kind).bind S.object? with
+    | none => simp
+    | some o =>
+      simp only
+      have ho : S.object? o.name = some o := by
+        cases hk : rootTypeName S op.kind with
+        | none => simp [hk] at hroot
+        | some tn =>
+          simp only [hk, Option.bind_some] at hroot
+          exact object?_name S tn o hroot
+      have hop : op ∈ D.ops := by
+        -- the selected operation is one of the document's
+        have : ∀ (ops : List Op) (found : Option Op) (r : Op), getOperation.go opName ops found = .ok r →
+            r ∈ ops ∨ found = some r := by
+          intro ops
+          induction ops with
+          | nil => intro found r h; cases found <;> simp [getOperation.go] at h; exact Or.inr (by rw [h])
+          | cons a rest ihl =>
+            intro found r h
+            simp only [getOperation.go] at h
+            split at h
+            · cases found with
+              | some f => simp at h
+              | none =>
+                simp only at h
+                rcases ihl _ _ h with h1 | h1
+                · exact Or.inl (List.mem_cons_of_mem _ h1)
+                · simp only [Option.some.injEq] at h1; exact Or.inl (by rw [h1]; exact List.mem_cons_self ..)
+            · rcases ihl _ _ h with h1 | h1
+              · exact Or.inl (List.mem_cons_of_mem _ h1)
+              · exact Or.inr h1
+        unfold getOperation at hgo
+        rcases this _ _ _ hgo with h1 | h1
+        · exact h1
+        · simp at h1
+      obtain ⟨h1, _⟩ := (noOof_main memo S D P hP lvl hL fuel).2 o op.sels root [] [] L (cacheOK_nil S D P) ho (hops op hop) hfuel
+      cases hr : (execSelections memo S D fuel o op.sels root [] []).r with
+      | ok j => simp
+      | err e => simp
+      | stuck st =>
+        simp only [ne_eq, Except.error.injEq]
+        intro hst
+        subst hst
+        exact h1 hr
+
+
+/-- a decidable test of the descent condition over the document's nodes -/
+def Document.descentCheck (D : Document) (lvl : Selection → Nat) : Bool :=
+  D.nodes.all fun s =>
+    match s with
+    | .field _ _ _ _ _ _ sub => sub.all fun t => decide (lvl t < lvl s)
+    | .inline _ _ _ sub => sub.all fun t => decide (lvl t < lvl s)
+    | .spread _ name _ =>
+      match D.frag? name with
+      | some fr => fr.sels.all fun t => decide (lvl t < lvl s)
+      | none => true
+
+theorem descends_of_check (D : Document) (lvl : Selection → Nat) (h : D.descentCheck lvl = true) :
+    Descends D (· ∈ D.nodes) lvl := by
+  unfold Document.descentCheck at h
+  rw [List.all_eq_true] at h
+  refine ⟨?_, ?_, ?_⟩
+  · intro pos alias name wkey ae dirs sub hm s hs
+    have := h _ hm
+    simp only [List.all_eq_true, decide_eq_true_eq] at this
+    exact this s hs
+  · intro pos tc dirs sub hm s hs
+    have := h _ hm
+    simp only [List.all_eq_true, decide_eq_true_eq] at this
+    exact this s hs
+  · intro pos name dirs fr hm hf s hs
+    have := h _ hm
+    simp only [hf, List.all_eq_true, decide_eq_true_eq] at this
+    exact this s hs
+
 end ApiFu.C01
